@@ -231,7 +231,20 @@ class Pipeline(object):
 
         self._worker_tasks.clear()
 
-        yield from self._producer_task
+        if not self._producer_task.done():
+            # No worker is left to take items or to wake the producer up:
+            # a producer that waits for the source or for room in the
+            # queue would never finish.
+            self._producer_task.cancel()
+
+        try:
+            yield from self._producer_task
+        except asyncio.CancelledError:
+            if not self._producer_task.cancelled():
+                raise
+
+            if self._item_queue.unfinished_items:
+                self._warn_discarded_items()
 
         self._state = PipelineState.stopped
 
